@@ -16,7 +16,7 @@ CHECK = dict(
                  "single-step configuration (C21 ties configurations together)"],
     overlay={"quick": "plain", "thorough": "asan"},
     crash_is_violation=True,
-    timeout={"quick": 900, "thorough": 6000},
+    timeout={"quick": 1500, "thorough": 6000},
     technique="runtime monitoring: fault injection by memory map (holes, read-only pages, straddling), snapshot comparison and resume-vs-no-fault differential",
 )
 
